@@ -253,6 +253,18 @@ class InterpBase:
       return VSeq(z3.Array(self.path.fresh_name(name + '.arr'), z3.IntSort(), sort_of(v.kind)), n, v.kind)
     if isinstance(v, VTuple):
       return VTuple([self.fresh_like(x, f'{name}.{i}') for i, x in enumerate(v.items)])
+    if isinstance(v, VVec):
+      return VVec([self.fresh_like(x, f'{name}.{i}') for i, x in enumerate(v.items)])
+    if isinstance(v, VList):       # a list of buffers: each becomes a fresh symbolic-length list
+      return VList([self.fresh_like(x, f'{name}.{i}') for i, x in enumerate(v.items)])
+    if isinstance(v, VMList):
+      n = z3.Int(self.path.fresh_name(name + '.len'))
+      self.assume(n >= 0)
+      m = VMList(VSeq(z3.Array(self.path.fresh_name(name + '.arr'), z3.IntSort(), sort_of(v.seq.kind)), n, v.seq.kind), v.is_deque)
+      if getattr(v, 'cat', None) is not None:
+        m.cat = VOpaque(z3.Const(self.path.fresh_name(name + '.cat'), Obj))
+        self.assume(len_of(m.cat.t) >= 0)
+      return m
     if isinstance(v, (VStr, VFn, VClass, VModule, VExc)):
       return v
     raise Unsupported(f'cannot havoc a {type(v).__name__}')
@@ -383,11 +395,15 @@ class InterpBase:
         self.obj_ids.append(t)
         v.f['__id__'] = VOpaque(t)
       return v.f['__id__'].t
-    if isinstance(v, VTuple) and len(v.items) == 2:
-      a, b = self.to_obj(v.items[0]), self.to_obj(v.items[1])
-      t = mk_pair(a, b)
+    if isinstance(v, VTuple) and len(v.items) >= 1:
+      # right-nested pairs: (a, b, c) = pair(a, pair(b, pair(c, none)))
+      rest = self.to_obj(VTuple(v.items[1:])) if len(v.items) > 1 else none_obj
+      if len(v.items) == 2:
+        rest = self.to_obj(v.items[1])
+      a = self.to_obj(v.items[0])
+      t = mk_pair(a, rest)
       self.assume(pair_fst(t) == a)
-      self.assume(pair_snd(t) == b)
+      self.assume(pair_snd(t) == rest)
       return t
     if isinstance(v, VOpt):
       return z3.If(v.isnone, none_obj, self.to_obj(v.val))
